@@ -8,7 +8,8 @@
        case folding; the last assignment wins; null leaves the field untouched);
      - PDU.Membership() (decode of content into a struct with a string field membership,
        error when the state key is missing);
-     - SplitID, extractAuthorisedViaServerName (gjson: first member with exactly that key),
+     - SplitID, extractAuthorisedViaServerName (encoding/json decode of the content, as the auth
+       rules read it: folded member names, last string occurrence, null ignored),
        emptyAuthorisedViaServerName, selected per version from the GENERATED room-version table
        (Gen/GenVersions.v: eventIDFormat, restrictedJoinServernameFunc, signatureValidityCheckFunc);
      - the needed-servers set, the list of verification requests (one per needed server; the
@@ -175,19 +176,23 @@ Definition membership_of (e : event) : option bytes :=
   end.
 
 (* ---------- RestrictedJoinServername ---------- *)
-(* extractAuthorisedViaServerName: gjson.GetBytes(content, key): first member with that key;
-   Result.String() of a non-string never starts with '@', so SplitID refuses it.
-   Outer None = error; Some [] = nothing to add. *)
+(* extractAuthorisedViaServerName: json.Unmarshal(content, &struct{AuthorisedVia string}) - the
+   member is matched the encoding/json way (exact or folded name), the LAST string occurrence
+   wins, a null occurrence changes nothing, any other value is an error, the empty string names
+   nobody; then SplitID with the user sigil.  This is the reading of MemberContent, i.e. of the
+   auth rules.  Outer None = error; Some [] = nothing to add. *)
 Definition authorised_via (ver : bytes) (e : event) : option bytes :=
   if restricted_extract ver then
     match e_content e with
+    | None => None                               (* unexpected end of JSON input *)
+    | Some JNull => Some []
     | Some (JObj m) =>
-        match assoc_first k_authorised_via m with
-        | None => Some []
-        | Some (JStr s) => id_domain 64 s
-        | Some _ => None
+        match go_string k_authorised_via m with
+        | None => None
+        | Some [] => Some []
+        | Some s => id_domain 64 s
         end
-    | _ => Some []
+    | Some _ => None
     end
   else Some [].
 
